@@ -184,8 +184,17 @@ def step_harness(spec, tier, seed, log, race=False, extra_env=None):
         return merged
     if isinstance(hs, dict):
         hs = [hs]
-    for h in hs:
-        res = step_harness_one(spec, h, tier, seed, log, race, extra_env)
+    if os.environ.get("VERIF_ONLY_HARNESS"):  # development aid: run a subset of the harnesses
+        hs = [h for h in hs if re.search(os.environ["VERIF_ONLY_HARNESS"], h["pkg"] + " " + h["test"])]
+    par = int(spec.get("parallel", 1))
+    if par > 1:
+        from concurrent.futures import ThreadPoolExecutor
+        with ThreadPoolExecutor(max_workers=par) as ex:
+            results = list(ex.map(lambda h: step_harness_one(spec, h, tier, seed, log, race, extra_env), hs))
+    else:
+        results = None
+    for i, h in enumerate(hs):
+        res = results[i] if results is not None else step_harness_one(spec, h, tier, seed, log, race, extra_env)
         if res is None:
             return None
         for k in ("evaluations", "distinct_nontrivial", "model_calls", "wall_s"):
@@ -200,7 +209,41 @@ def step_harness(spec, tier, seed, log, race=False, extra_env=None):
     return merged
 
 
+def parse_race_reports(text):
+    """Split race-detector output into reports; key each by the first frame of either stack that lies in the code under test."""
+    out = []
+    for block in text.split("=================="):
+        if "WARNING: DATA RACE" not in block:
+            continue
+        tops, kinds = [], []
+        for st in re.split(r"\n\s*\n", block.strip()):
+            lines = [l for l in st.splitlines() if "WARNING: DATA RACE" not in l]
+            if not lines:
+                continue
+            m = re.match(r"\s*((?:Previous )?(?:atomic )?(?:write|read)) at ", lines[0], re.I)
+            if not m:
+                continue
+            kinds.append(m.group(1).lower().replace("previous ", ""))
+            top = None
+            for i in range(1, len(lines) - 1):
+                loc = lines[i + 1].strip()
+                if loc.startswith(REPO + "/"):
+                    if "zz_verif" in loc or "/zzverif/" in loc:
+                        top = "HARNESS"  # the access itself is performed by harness code
+                    else:
+                        fn = re.sub(r"\([^()]*\)$", "", lines[i].strip()).split("/")[-1]
+                        top = fn + "@" + os.path.basename(loc.split(":")[0])
+                    break
+            tops.append(top)
+        real = sorted(t for t in tops if t and t != "HARNESS")
+        key = "race:" + "|".join(real) if real and "HARNESS" not in tops else "race:harness-only"
+        out.append({"key": key, "kinds": kinds, "tops": tops, "report": block.strip()[:6000]})
+    return out
+
+
 def step_harness_one(spec, h, tier, seed, log, race=False, extra_env=None):
+    race = race or bool(h.get("race"))
+    tier = h.get("tier", tier)
     ov = prepare_overlay(spec)
     outp = os.path.join(CACHE, f"harness_{spec['id']}_{h['test']}_{tier}_{os.getpid()}.json")
     if os.path.exists(outp):
@@ -214,11 +257,23 @@ def step_harness_one(spec, h, tier, seed, log, race=False, extra_env=None):
            "-run", h["test"], "-timeout", h.get("timeout", "20m")]
     if h.get("checklinkname"):
         cmd.append("-ldflags=-checklinkname=0")
+    racelog = os.path.join(CACHE, f"race_{spec['id']}_{re.sub(r'[^A-Za-z0-9]', '', h['test'])}_{os.getpid()}")
     if race:
         cmd.append("-race")
+        env["GORACE"] = f"halt_on_error=0 log_path={racelog}"
+        env["VERIF_RACE"] = "1"
     cmd.append("./" + h["pkg"])
     t0 = time.time()
     rc, out = sh(cmd, cwd=REPO, env=env, timeout=h.get("timeout_s", 2400))
+    races = []
+    if race:
+        text = out
+        d = os.path.dirname(racelog)
+        for fn in os.listdir(d):
+            if fn.startswith(os.path.basename(racelog) + "."):
+                text += "\n" + open(os.path.join(d, fn), errors="replace").read()
+                os.remove(os.path.join(d, fn))
+        races = parse_race_reports(text)
     res = None
     if os.path.exists(outp):
         try:
@@ -232,7 +287,30 @@ def step_harness_one(spec, h, tier, seed, log, race=False, extra_env=None):
         CRASH.append({"test": h["test"], "pkg": h["pkg"], "output_tail": tail,
                       "panic": "panic:" in out or "fatal error:" in out, "timeout": "test timed out" in out})
         return None
-    res["go_test_rc"] = rc
+    if race:
+        if h.get("race_only"):
+            # under the race detector only race reports are findings of this run: the other oracles of the
+            # harness belong to their own property and are timing-sensitive under the detector's slowdown
+            res["findings"] = []
+        seen = set()
+        nrep = 0
+        for r in races:
+            nrep += 1
+            if r["key"] in seen:
+                continue
+            seen.add(r["key"])
+            if r["key"] == "race:harness-only":
+                # one of the two accesses is performed by harness code itself (or no frame lies in the code under
+                # test): an artefact of the harness, not evidence about the code
+                res.setdefault("notes", []).append("race report with an access performed by the harness itself (ignored): " + " / ".join(str(t) for t in r.get("tops", [])))
+                continue
+            kind = "oracle"
+            res.setdefault("findings", []).append({"kind": kind, "key": r["key"], "case": f"{h['pkg']} {h['test']} under -race (seed {seed}, tier {tier})",
+                                                   "real": r["report"], "model": "",
+                                                   "detail": "the happens-before race detector reported conflicting accesses not ordered by synchronisation (" + "/".join(r["kinds"]) + ")"})
+        res.setdefault("notes", []).append(f"{h['pkg']} {h['test']}: -race run, {nrep} race report(s), {len(seen)} distinct")
+        res.setdefault("distribution", {})["race-run/" + h["pkg"] + "/" + re.sub(r"[^A-Za-z0-9]", "", h["test"])] = 1
+    res["go_test_rc"] = rc if not (race and h.get("race_only")) else 0
     res["go_test_tail"] = "\n".join(out.splitlines()[-15:])
     res["wall_s"] = time.time() - t0
     if rc != 0:
@@ -456,6 +534,8 @@ def setup():
                "-overlay=" + ov, "-run", "^$"]
         if h.get("checklinkname"):
             cmd.append("-ldflags=-checklinkname=0")
+        if h.get("race"):
+            cmd.append("-race")
         cmd.append("./" + h["pkg"])
         rc2, out2 = sh(cmd, cwd=REPO, env=GOENV, timeout=3000)
         if rc2 != 0:
